@@ -449,8 +449,22 @@ def unexercised_blocks(pid, cases, log, all_blocks=False, files=None):
                 if m and m.group(1) in files:
                     loc = (m.group(1), int(m.group(2)), int(m.group(3)))
                     blocks[loc] = blocks.get(loc, 0) + int(m.group(4))
+        # functions the run never entered are not part of what this property's stream exercises (another property's
+        # check answers for them); only an unexecuted block inside a function that did run is reported
+        rc, fout = sh(['go', 'tool', 'covdata', 'func', '-i=' + d], env=GOENV, timeout=300)
+        starts = {}
+        for line in fout.splitlines():
+            m = re.match(r'github\.com/ja7ad/otp/([^:]+):(\d+):\s+(\S+)\s+([0-9.]+)%', line)
+            if m and m.group(1) in files:
+                starts.setdefault(m.group(1), []).append((int(m.group(2)), float(m.group(4)) > 0))
+        def entered(f, sl):
+            best = None
+            for (l, e) in sorted(starts.get(f, [])):
+                if l <= sl:
+                    best = e
+            return True if best is None else best
         for (f, sl, el), n in sorted(blocks.items()):
-            if n == 0 or all_blocks:
+            if all_blocks or (n == 0 and entered(f, sl)):
                 missed.append(('%s:%d' % (f, sl), block_key(REPO, f, sl, el)))
         return missed, len(blocks)
     finally:
